@@ -49,6 +49,10 @@ CHECKS = {
    text="Same model and rig as C06, reaction part: TLC computes for every incoming kind and module selection the set of layers that answer downward and checks it is a singleton exactly where the statement demands an acknowledgement; the replay compares the stanzas actually sent down with the hand-built expected ack / receipt / pong (id, class, type, to, participant, call-id), for all notification types incl. unknown ones and encrypt notifications with a real key store, all call kinds, server pings incl. ids colliding with every outstanding request kind, and unpresentable message payloads in text / media / other message types, under all 16 module selections with and without the encryption layers.",
    note="The documented exception (picture notification that is neither set nor delete) is only required to raise. Key-management iqs of the encryption layers are not counted as reactions.",
    technique="TLA+ guard model evaluated by TLC over all module selections + replay of every row into the real assembled stack"),
+ "C09": dict(level="exploration", design="4/C09",
+   text="For every stanza kind of the hand-written shape catalogue (about 150 kinds, 100 entity classes in 16 packages; documented variants with optional attributes present/absent, 0..n list children, boundary-biased values) 48 (thorough: 300) seeded instances per variant: stanza -> fromProtocolTreeNode -> toProtocolTreeNode compared strictly with the stanza, numbers by value; outgoing kinds: entity built through its public constructor -> stanza compared with the hand-built expected stanza; forwarded copies must be independent of the received entity. Every stanza an entity produces for sending (requests, acks, receipts, forwarded messages, reactions) is abstracted into WireFormat.tla's tree language, TLC computes its specified encoding, and the real encoder/decoder must reproduce it / return it unchanged.",
+   note="There is no temporal content: TLC contributes the codec oracle only; the structural oracle is the catalogue (class docstrings + parser code), which is hand-written and could itself be wrong - it is cross-checked by its own self-test. Nine documented deviations of the pinned tree are recorded as known findings (findings/known_findings.json). Encrypted message kinds and key-bundle iqs are not in the catalogue.",
+   technique="catalogue-driven exhaustive/seeded enumeration of entity round trips + TLC-evaluated codec reference (WireFormat.tla)"),
 }
 NA_REASON = "check not built yet in this session (planned: see DESIGN.md section 4)"
 
